@@ -60,7 +60,7 @@ void *memmove(void *dst, const void *src, size_t n)
     }
 #endif
     char tmp[MM_MAX];
-    __CPROVER_assert(n <= MM_MAX, "memmove model bound");
+    __CPROVER_assert(n <= MM_MAX, "harness: memmove model bound");
     for (size_t i = 0; i < n; i++)
 	tmp[i] = ((const char *)src)[i];
     for (size_t i = 0; i < n; i++)
@@ -100,11 +100,11 @@ void *ut_calloc(size_t size)
 void *ut_realloc(void *ptr, size_t size)
 {
 #ifdef VERIF_CBMC
-    __CPROVER_assert(size <= MM_ALLOC, "memory model: reallocation request within the modelled object size");
+    __CPROVER_assert(size <= MM_ALLOC, "harness: memory model: reallocation request within the modelled object size (a larger request is outside what this obligation can decide)");
     char *p = malloc(MM_ALLOC);
     ASSUME(p != NULL);
     if (ptr != NULL) {
-	__CPROVER_assert(__CPROVER_OBJECT_SIZE(ptr) == MM_ALLOC, "memory model: realloc of a modelled object");
+	__CPROVER_assert(__CPROVER_OBJECT_SIZE(ptr) == MM_ALLOC, "harness: memory model: realloc of a modelled object");
 #ifndef LEN_TIER
 	for (size_t i = 0; i < MM_ALLOC; i++)
 	    p[i] = ((const char *)ptr)[i];
